@@ -1,8 +1,12 @@
 """Spec functions over engine values and their unfolding tables (single source for the z3 side).
 
-Every rule below has a Lean/Mathlib counterpart in spec/OptyxSpec.lean (name in the `lean=` comments); the z3 step
-proves *code result = table formula*, Lean proves *table formula = mathematics*.  Entries without a finished Lean
-proof are listed in TRUSTED_TABLE_ENTRIES and surface in every evidence file that uses them.
+Every rule below has a Lean/Mathlib counterpart in spec/OptyxSpec.lean (names in the comments); the z3 step proves
+*code result = table formula*, Lean proves *table formula = mathematics*.  Entries without a finished Lean proof are
+listed by contracts/lean_status.py and surface in every evidence file that uses them.
+
+Unfolding is demand driven and kind specific: an instance for object `r` is emitted only once the exact class of `r` is
+known on the path (spec case, isinstance fork, allocation); requests made earlier are parked and replayed when the
+class is learned.  Emitting fewer instances only weakens the assumptions, so it is sound for proving.
 """
 from __future__ import annotations
 
@@ -13,11 +17,11 @@ from pyvc.sym import Ref, Name, R, I, B, fn
 from pyvc.spec import BINARY_OPS, UNARY_OPS, VEC_UNARY_OPS, Schema
 from pyvc.values import Obj, Opaque, SReal, SInt, SSeq, Unsupported, real_term, num_term
 
-TRUSTED_TABLE_ENTRIES: list[str] = []   # filled by contracts/lean_status.py after `./check setup`
-
 UF = sym.UF
 LN2 = UF["log"](sym.rv(2.0))
 LN10 = UF["log"](sym.rv(10.0))
+POWDOM = fn("POWDOM", R, R, B)
+WF = fn("WF", Ref, B)           # well-formed scalar expression tree (precondition vocabulary, see unfold_wf)
 
 
 def lit(s):
@@ -32,7 +36,6 @@ class Spec:
         self.S: Schema = ip.schema
         self.K = ip.schema.kinds
 
-    # ---- references
     def ref(self, v):
         r = self.ip.models.ref_of(self.ip, v)
         if r is None:
@@ -50,7 +53,6 @@ class Spec:
     def kind_is(self, v, cls: str):
         return self.K.is_kind(self.ref(v), cls)
 
-    # ---- scalar spec functions (each makes sure the unfolding instance for its argument exists)
     def den(self, v, E=None, PV=None):
         if isinstance(v, (int, float)):
             return sym.rv(v)
@@ -61,44 +63,49 @@ class Spec:
         E = self.E if E is None else E
         PV = self.PV if PV is None else PV
         r = self.ref(v)
-        unfold_den(self, r, E, PV)
+        unfold(self, "den", r, (E, PV))
         return self.S.DEN(r, E, PV)
 
     def dv(self, v, w, E=None, PV=None):
         E = self.E if E is None else E
         PV = self.PV if PV is None else PV
         r = self.ref(v)
-        unfold_dv(self, r, w, E, PV)
+        unfold(self, "dv", r, (w, E, PV))
         return self.S.DV(r, w, E, PV)
 
     def reg(self, v, w, E=None, PV=None):
         E = self.E if E is None else E
         PV = self.PV if PV is None else PV
         r = self.ref(v)
-        unfold_dv(self, r, w, E, PV)
+        unfold(self, "dv", r, (w, E, PV))
         return self.S.REG(r, w, E, PV)
 
     def dom(self, v, E=None, PV=None):
         E = self.E if E is None else E
         PV = self.PV if PV is None else PV
         r = self.ref(v)
-        unfold_dom(self, r, E, PV)
+        unfold(self, "dom", r, (E, PV))
         return self.S.DOM(r, E, PV)
 
     def occ(self, v, w):
         r = self.ref(v)
-        unfold_occ(self, r, w)
+        unfold(self, "occ", r, (w,))
         return self.S.OCC(r, w)
 
     def ispoly(self, v):
         r = self.ref(v)
-        unfold_deg(self, r)
+        unfold(self, "deg", r, ())
         return self.S.ISPOLY(r)
 
     def sdeg(self, v):
         r = self.ref(v)
-        unfold_deg(self, r)
+        unfold(self, "deg", r, ())
         return self.S.SDEG(r)
+
+    def wf(self, v):
+        r = self.ref(v)
+        unfold(self, "wf", r, ())
+        return WF(r)
 
     def value(self, v):
         return self.S.F("value", R)(self.ref(v))
@@ -114,35 +121,86 @@ class Spec:
     def child(self, v, field: str):
         return self.S.F(field, Ref)(self.ref(v))
 
+    def if_kind(self, v, cls: str, fams=("den",)):
+        """Make the unfolding instances of `v` for class `cls` available under the guard kind(v) == cls."""
+        r = self.ref(v)
+        if self.ip.path.kinds.get(str(r)) is not None:
+            return
+        for fam in fams:
+            params = {"den": (self.E, self.PV), "deg": (), "wf": ()}[fam]
+            key = f"guarded:{fam}:{cls}:{r}:{params}"
+            if key in self.ip.path.unfolded:
+                continue
+            self.ip.path.unfolded.add(key)
+            self.ip.path.guards.append(self.K.is_kind(r, cls))
+            try:
+                for f in TABLES[fam].get(cls, []):
+                    f(self, r, *params)
+            finally:
+                self.ip.path.guards.pop()
+
     def is_const(self, v):
+        self.if_kind(v, "Constant", ("den", "deg", "wf"))
         return self.kind_is(v, "Constant")
 
     def is_zero(self, v):
+        self.if_kind(v, "Constant", ("den", "deg", "wf"))
         return z3.And(self.kind_is(v, "Constant"), self.value(v) == 0)
 
     def is_one(self, v):
+        self.if_kind(v, "Constant", ("den", "deg", "wf"))
         return z3.And(self.kind_is(v, "Constant"), self.value(v) == 1)
 
-    def scalar_kind(self, v):
-        """v is one of the scalar-valued expression kinds (everything except the two element-wise vector kinds)."""
-        r = self.ref(v)
-        return z3.And(z3.Not(self.K.is_kind(r, "ElementwisePower")), z3.Not(self.K.is_kind(r, "ElementwiseUnary")))
+
+# ------------------------------------------------------------------------------------------- machinery
+TABLES: dict[str, dict[str, list]] = {"den": {}, "dv": {}, "dom": {}, "occ": {}, "deg": {}, "wf": {}}
 
 
-# ------------------------------------------------------------------------------------------- unfolding tables
-def _once(sp: Spec, key: str) -> bool:
-    u = sp.ip.path.unfolded
-    if key in u:
-        return False
-    u.add(key)
-    return True
+def rule(fam: str, *kinds: str):
+    def deco(f):
+        for k in kinds:
+            TABLES[fam].setdefault(k, []).append(f)
+        return f
+    return deco
 
 
-def uf_facts(sp: Spec, opname: str, arg, res) -> None:
-    """True facts about the real elementary functions, instantiated at the terms that occur (lean: uf_*)."""
-    p = sp.ip.path
-    if not _once(sp, f"uf:{opname}:{arg}"):
+def unfold(sp: Spec, fam: str, r, params: tuple) -> None:
+    path = sp.ip.path
+    kind = path.kinds.get(str(r))
+    if kind is None:
+        key = f"park:{fam}:{r}:{params}"
+        if key not in path.unfolded:
+            path.unfolded.add(key)
+            sp.S.park(sp.ip, r, lambda: unfold(sp, fam, r, params))
         return
+    key = f"unf:{fam}:{r}:{params}"
+    if key in path.unfolded:
+        return
+    path.unfolded.add(key)
+    if fam in ("dv", "dom"):
+        unfold(sp, "den", r, params[-2:])
+    for f in TABLES[fam].get(kind, []):
+        f(sp, r, *params)
+
+
+def ops_of(sp: Spec, r, table: list[str]) -> list[str]:
+    op = sp.S.known_op(sp.ip, r)
+    return [op] if op is not None else list(table)
+
+
+def guard_op(sp: Spec, r, op: str):
+    if sp.S.known_op(sp.ip, r) is not None:
+        return z3.BoolVal(True)
+    return sp.S.F("op", Name)(r) == lit(op)
+
+
+def uf_facts(ip, opname: str, arg, res) -> None:
+    """True facts about the real elementary functions, instantiated at the terms that occur (lean: uf_*)."""
+    p = ip.path
+    key = f"uf:{opname}:{arg}"
+    if key in p.unfolded:
+        return
+    p.unfolded.add(key)
     if opname == "sqrt":
         p.assume(z3.Implies(arg >= 0, z3.And(res >= 0, res * res == arg)))     # Real.sqrt_nonneg, Real.mul_self_sqrt
         p.assume(z3.Implies(arg > 0, res > 0))                                  # Real.sqrt_pos
@@ -150,8 +208,9 @@ def uf_facts(sp: Spec, opname: str, arg, res) -> None:
         p.assume(res > 0)                                                       # Real.exp_pos
     elif opname == "cosh":
         p.assume(res >= 1)                                                      # Real.one_le_cosh
-    elif opname == "abs":
-        pass
+    elif opname == "log":
+        p.assume(z3.Implies(arg > 1, res > 0))                                  # Real.log_pos
+        p.assume(z3.Implies(arg == 1, res == 0))                                # Real.log_one
 
 
 def ufapp(sp: Spec, opname: str, a):
@@ -160,7 +219,7 @@ def ufapp(sp: Spec, opname: str, a):
     if opname == "abs":
         return sym.zabs(a)
     t = UF[opname](a)
-    uf_facts(sp, opname, a, t)
+    uf_facts(sp.ip, opname, a, t)
     return t
 
 
@@ -173,37 +232,46 @@ def BIN_DEN(sp, op, a, b):
             "**": lambda: powapp(sp, a, b)}[op]()
 
 
-def unfold_den(sp: Spec, r, E, PV) -> None:
-    if not _once(sp, f"den:{r}:{E}:{PV}"):
-        return
-    S, K, p = sp.S, sp.K, sp.ip.path
-    D = lambda x: S.DEN(x, E, PV)
-    val = S.F("value", R)(r)
-    nm = S.F("name", Name)(r)
-    opn = S.F("op", Name)(r)
-    l, rr, a = S.F("left", Ref)(r), S.F("right", Ref)(r), S.F("operand", Ref)(r)
-    p.assume(z3.Implies(K.is_kind(r, "Constant"), D(r) == val))
-    p.assume(z3.Implies(K.is_kind(r, "Variable"), D(r) == z3.Select(E, nm)))
-    p.assume(z3.Implies(K.is_kind(r, "Parameter"), D(r) == z3.Select(PV, r)))
-    isb = K.is_kind(r, "BinaryOp")
-    for op in BINARY_OPS:
-        p.assume(z3.Implies(z3.And(isb, opn == lit(op)), D(r) == BIN_DEN(sp, op, D(l), D(rr))))
-    isu = K.is_kind(r, "UnaryOp")
-    for op in UNARY_OPS:
-        p.assume(z3.Implies(z3.And(isu, opn == lit(op)), D(r) == ufapp(sp, op, D(a))))
-    for hook in VECTOR_DEN_HOOKS:
-        hook(sp, r, E, PV)
+def kids(sp: Spec, r):
+    S = sp.S
+    return S.F("left", Ref)(r), S.F("right", Ref)(r), S.F("operand", Ref)(r)
 
 
-VECTOR_DEN_HOOKS: list = []
-VECTOR_DV_HOOKS: list = []
-VECTOR_OCC_HOOKS: list = []
-VECTOR_DEG_HOOKS: list = []
-VECTOR_DOM_HOOKS: list = []
+# ------------------------------------------------------------------------------------------- DEN
+@rule("den", "Constant")
+def _(sp, r, E, PV):
+    sp.ip.path.assume(sp.S.DEN(r, E, PV) == sp.S.F("value", R)(r))
 
 
+@rule("den", "Variable")
+def _(sp, r, E, PV):
+    sp.ip.path.assume(sp.S.DEN(r, E, PV) == z3.Select(E, sp.S.F("name", Name)(r)))
+
+
+@rule("den", "Parameter")
+def _(sp, r, E, PV):
+    sp.ip.path.assume(sp.S.DEN(r, E, PV) == z3.Select(PV, r))
+
+
+@rule("den", "BinaryOp")
+def _(sp, r, E, PV):
+    l, rr, _ = kids(sp, r)
+    D = lambda x: sp.S.DEN(x, E, PV)
+    for op in ops_of(sp, r, BINARY_OPS):
+        sp.ip.path.assume(z3.Implies(guard_op(sp, r, op), D(r) == BIN_DEN(sp, op, D(l), D(rr))))
+
+
+@rule("den", "UnaryOp")
+def _(sp, r, E, PV):
+    _, _, a = kids(sp, r)
+    D = lambda x: sp.S.DEN(x, E, PV)
+    for op in ops_of(sp, r, UNARY_OPS):
+        sp.ip.path.assume(z3.Implies(guard_op(sp, r, op), D(r) == ufapp(sp, op, D(a))))
+
+
+# ------------------------------------------------------------------------------------------- DV / REG (calculus table)
 def unary_dv_rule(sp: Spec, op: str, a, da):
-    """Calculus table: derivative of f(a) given a and da (lean: deriv_<op>)."""
+    """Derivative of f(a) given a and da (lean: deriv_<op>)."""
     u = lambda name, x: ufapp(sp, name, x)
     return {
         "neg": lambda: -da,
@@ -231,60 +299,71 @@ def unary_dv_rule(sp: Spec, op: str, a, da):
 def unary_regular(sp: Spec, op: str, a):
     """Side condition under which the table entry is the derivative (= hypotheses of the Lean theorem)."""
     u = lambda name, x: ufapp(sp, name, x)
+    T_ = z3.BoolVal(True)
     return {
-        "neg": lambda: z3.BoolVal(True), "abs": lambda: a != 0, "sin": lambda: z3.BoolVal(True),
-        "cos": lambda: z3.BoolVal(True), "tan": lambda: u("cos", a) != 0, "exp": lambda: z3.BoolVal(True),
+        "neg": lambda: T_, "abs": lambda: a != 0, "sin": lambda: T_, "cos": lambda: T_,
+        "tan": lambda: u("cos", a) != 0, "exp": lambda: T_,
         "log": lambda: a > 0, "log2": lambda: a > 0, "log10": lambda: a > 0, "sqrt": lambda: a > 0,
-        "tanh": lambda: z3.BoolVal(True), "sinh": lambda: z3.BoolVal(True), "cosh": lambda: z3.BoolVal(True),
-        "asin": lambda: z3.And(a > -1, a < 1), "acos": lambda: z3.And(a > -1, a < 1), "atan": lambda: z3.BoolVal(True),
-        "asinh": lambda: z3.BoolVal(True), "acosh": lambda: a > 1, "atanh": lambda: z3.And(a > -1, a < 1),
+        "tanh": lambda: T_, "sinh": lambda: T_, "cosh": lambda: T_,
+        "asin": lambda: z3.And(a > -1, a < 1), "acos": lambda: z3.And(a > -1, a < 1), "atan": lambda: T_,
+        "asinh": lambda: T_, "acosh": lambda: a > 1, "atanh": lambda: z3.And(a > -1, a < 1),
     }[op]()
 
 
-def unfold_dv(sp: Spec, r, w, E, PV) -> None:
-    if not _once(sp, f"dv:{r}:{w}:{E}:{PV}"):
-        return
-    unfold_den(sp, r, E, PV)
+@rule("dv", "Constant", "Parameter")
+def _(sp, r, w, E, PV):
+    sp.ip.path.assume(z3.And(sp.S.DV(r, w, E, PV) == 0, sp.S.REG(r, w, E, PV)))
+
+
+@rule("dv", "Variable")
+def _(sp, r, w, E, PV):
+    nm = sp.S.F("name", Name)(r)
+    sp.ip.path.assume(z3.And(sp.S.DV(r, w, E, PV) == z3.If(nm == w, sym.rv(1), sym.rv(0)), sp.S.REG(r, w, E, PV)))
+
+
+@rule("dv", "BinaryOp")
+def _(sp, r, w, E, PV):
     S, K, p = sp.S, sp.K, sp.ip.path
+    l, rr, _ = kids(sp, r)
     D = lambda x: S.DEN(x, E, PV)
     DV = lambda x: S.DV(x, w, E, PV)
     REG = lambda x: S.REG(x, w, E, PV)
-    val = S.F("value", R)
-    nm = S.F("name", Name)(r)
-    opn = S.F("op", Name)(r)
-    l, rr, a = S.F("left", Ref)(r), S.F("right", Ref)(r), S.F("operand", Ref)(r)
-    p.assume(z3.Implies(K.is_kind(r, "Constant"), z3.And(DV(r) == 0, REG(r))))
-    p.assume(z3.Implies(K.is_kind(r, "Parameter"), z3.And(DV(r) == 0, REG(r))))
-    p.assume(z3.Implies(K.is_kind(r, "Variable"), z3.And(DV(r) == z3.If(nm == w, sym.rv(1), sym.rv(0)), REG(r))))
-    isb = K.is_kind(r, "BinaryOp")
     A_, B_, dA, dB = D(l), D(rr), DV(l), DV(rr)
     both = z3.And(REG(l), REG(rr))
-    # lean: deriv_add, deriv_sub, deriv_mul, deriv_div
-    p.assume(z3.Implies(z3.And(isb, opn == lit("+")), z3.And(DV(r) == dA + dB, REG(r) == both)))
-    p.assume(z3.Implies(z3.And(isb, opn == lit("-")), z3.And(DV(r) == dA - dB, REG(r) == both)))
-    p.assume(z3.Implies(z3.And(isb, opn == lit("*")), z3.And(DV(r) == A_ * dB + B_ * dA, REG(r) == both)))
-    p.assume(z3.Implies(z3.And(isb, opn == lit("/")),
-                        z3.And(DV(r) == (B_ * dA - A_ * dB) / (B_ * B_), REG(r) == z3.And(both, B_ != 0))))
-    # power: constant exponent (lean: deriv_rpow_const) / general exponent (lean: deriv_rpow)
-    rc = K.is_kind(rr, "Constant")
-    n = val(rr)
-    ispow = z3.And(isb, opn == lit("**"))
-    p.assume(z3.Implies(z3.And(ispow, rc),
-                        z3.And(DV(r) == z3.If(n == 0, sym.rv(0), n * powapp(sp, A_, n - 1) * dA),
-                               REG(r) == z3.And(REG(l), z3.Or(A_ != 0, n >= 1)))))
-    p.assume(z3.Implies(z3.And(ispow, z3.Not(rc)),
-                        z3.And(DV(r) == powapp(sp, A_, B_) * (dB * ufapp(sp, "log", A_) + B_ * dA / A_),
-                               REG(r) == z3.And(both, A_ > 0))))
-    isu = K.is_kind(r, "UnaryOp")
-    X, dX = D(a), DV(a)
-    for op in UNARY_OPS:
-        p.assume(z3.Implies(z3.And(isu, opn == lit(op)),
-                            z3.And(DV(r) == unary_dv_rule(sp, op, X, dX),
-                                   REG(r) == z3.And(REG(a), unary_regular(sp, op, X)))))
-    for hook in VECTOR_DV_HOOKS:
-        hook(sp, r, w, E, PV)
+    for op in ops_of(sp, r, BINARY_OPS):
+        g = guard_op(sp, r, op)
+        if op == "+":       # lean: deriv_add
+            p.assume(z3.Implies(g, z3.And(DV(r) == dA + dB, REG(r) == both)))
+        elif op == "-":     # lean: deriv_sub
+            p.assume(z3.Implies(g, z3.And(DV(r) == dA - dB, REG(r) == both)))
+        elif op == "*":     # lean: deriv_mul
+            p.assume(z3.Implies(g, z3.And(DV(r) == A_ * dB + B_ * dA, REG(r) == both)))
+        elif op == "/":     # lean: deriv_div
+            p.assume(z3.Implies(g, z3.And(DV(r) == (B_ * dA - A_ * dB) / (B_ * B_), REG(r) == z3.And(both, B_ != 0))))
+        elif op == "**":
+            rc = K.is_kind(rr, "Constant")
+            n = S.F("value", R)(rr)
+            # constant exponent (lean: deriv_rpow_const) / general exponent (lean: deriv_rpow)
+            p.assume(z3.Implies(z3.And(g, rc),
+                                z3.And(DV(r) == z3.If(n == 0, sym.rv(0), n * powapp(sp, A_, n - 1) * dA),
+                                       REG(r) == z3.And(REG(l), z3.Or(A_ != 0, n >= 1)))))
+            p.assume(z3.Implies(z3.And(g, z3.Not(rc)),
+                                z3.And(DV(r) == powapp(sp, A_, B_) * (dB * ufapp(sp, "log", A_) + B_ * dA / A_),
+                                       REG(r) == z3.And(both, A_ > 0))))
 
 
+@rule("dv", "UnaryOp")
+def _(sp, r, w, E, PV):
+    S, p = sp.S, sp.ip.path
+    _, _, a = kids(sp, r)
+    X, dX = S.DEN(a, E, PV), S.DV(a, w, E, PV)
+    for op in ops_of(sp, r, UNARY_OPS):
+        p.assume(z3.Implies(guard_op(sp, r, op),
+                            z3.And(S.DV(r, w, E, PV) == unary_dv_rule(sp, op, X, dX),
+                                   S.REG(r, w, E, PV) == z3.And(S.REG(a, w, E, PV), unary_regular(sp, op, X)))))
+
+
+# ------------------------------------------------------------------------------------------- DOM
 def unary_domain(sp: Spec, op: str, a):
     u = lambda name, x: ufapp(sp, name, x)
     return {
@@ -294,89 +373,149 @@ def unary_domain(sp: Spec, op: str, a):
     }.get(op, lambda: z3.BoolVal(True))()
 
 
-POWDOM = fn("POWDOM", R, R, B)
+@rule("dom", "Constant", "Variable", "Parameter")
+def _(sp, r, E, PV):
+    sp.ip.path.assume(sp.S.DOM(r, E, PV))
 
 
-def unfold_dom(sp: Spec, r, E, PV) -> None:
-    if not _once(sp, f"dom:{r}:{E}:{PV}"):
-        return
-    unfold_den(sp, r, E, PV)
-    S, K, p = sp.S, sp.K, sp.ip.path
-    D = lambda x: S.DEN(x, E, PV)
+@rule("dom", "BinaryOp")
+def _(sp, r, E, PV):
+    S, p = sp.S, sp.ip.path
+    l, rr, _ = kids(sp, r)
     DOM = lambda x: S.DOM(x, E, PV)
-    opn = S.F("op", Name)(r)
-    l, rr, a = S.F("left", Ref)(r), S.F("right", Ref)(r), S.F("operand", Ref)(r)
-    for leaf in ("Constant", "Variable", "Parameter"):
-        p.assume(z3.Implies(K.is_kind(r, leaf), DOM(r)))
-    isb = K.is_kind(r, "BinaryOp")
+    D = lambda x: S.DEN(x, E, PV)
     both = z3.And(DOM(l), DOM(rr))
-    for op in ("+", "-", "*"):
-        p.assume(z3.Implies(z3.And(isb, opn == lit(op)), DOM(r) == both))
-    p.assume(z3.Implies(z3.And(isb, opn == lit("/")), DOM(r) == z3.And(both, D(rr) != 0)))
-    p.assume(z3.Implies(z3.And(isb, opn == lit("**")), DOM(r) == z3.And(both, POWDOM(D(l), D(rr)))))
-    isu = K.is_kind(r, "UnaryOp")
-    for op in UNARY_OPS:
-        p.assume(z3.Implies(z3.And(isu, opn == lit(op)), DOM(r) == z3.And(DOM(a), unary_domain(sp, op, D(a)))))
-    for hook in VECTOR_DOM_HOOKS:
-        hook(sp, r, E, PV)
+    for op in ops_of(sp, r, BINARY_OPS):
+        g = guard_op(sp, r, op)
+        if op in ("+", "-", "*"):
+            p.assume(z3.Implies(g, DOM(r) == both))
+        elif op == "/":
+            p.assume(z3.Implies(g, DOM(r) == z3.And(both, D(rr) != 0)))
+        else:
+            p.assume(z3.Implies(g, DOM(r) == z3.And(both, POWDOM(D(l), D(rr)))))
 
 
-def unfold_occ(sp: Spec, r, w) -> None:
-    if not _once(sp, f"occ:{r}:{w}"):
-        return
-    S, K, p = sp.S, sp.K, sp.ip.path
-    OCC = lambda x: S.OCC(x, w)
-    nm = S.F("name", Name)(r)
-    l, rr, a = S.F("left", Ref)(r), S.F("right", Ref)(r), S.F("operand", Ref)(r)
-    p.assume(z3.Implies(K.is_kind(r, "Constant"), z3.Not(OCC(r))))
-    p.assume(z3.Implies(K.is_kind(r, "Parameter"), z3.Not(OCC(r))))
-    p.assume(z3.Implies(K.is_kind(r, "Variable"), OCC(r) == (nm == w)))
-    p.assume(z3.Implies(K.is_kind(r, "BinaryOp"), OCC(r) == z3.Or(OCC(l), OCC(rr))))
-    p.assume(z3.Implies(K.is_kind(r, "UnaryOp"), OCC(r) == OCC(a)))
-    for hook in VECTOR_OCC_HOOKS:
-        hook(sp, r, w)
+@rule("dom", "UnaryOp")
+def _(sp, r, E, PV):
+    S, p = sp.S, sp.ip.path
+    _, _, a = kids(sp, r)
+    for op in ops_of(sp, r, UNARY_OPS):
+        p.assume(z3.Implies(guard_op(sp, r, op),
+                            S.DOM(r, E, PV) == z3.And(S.DOM(a, E, PV), unary_domain(sp, op, S.DEN(a, E, PV)))))
 
 
-def unfold_deg(sp: Spec, r) -> None:
-    """Structural degree bound (lean: sdeg_sound — ISPOLY e /\\ SDEG e = d  ->  den e is an MvPolynomial of totalDegree <= d)."""
-    if not _once(sp, f"deg:{r}"):
-        return
+# ------------------------------------------------------------------------------------------- OCC
+@rule("occ", "Constant", "Parameter")
+def _(sp, r, w):
+    sp.ip.path.assume(z3.Not(sp.S.OCC(r, w)))
+
+
+@rule("occ", "Variable")
+def _(sp, r, w):
+    sp.ip.path.assume(sp.S.OCC(r, w) == (sp.S.F("name", Name)(r) == w))
+
+
+@rule("occ", "BinaryOp")
+def _(sp, r, w):
+    l, rr, _ = kids(sp, r)
+    sp.ip.path.assume(sp.S.OCC(r, w) == z3.Or(sp.S.OCC(l, w), sp.S.OCC(rr, w)))
+
+
+@rule("occ", "UnaryOp")
+def _(sp, r, w):
+    _, _, a = kids(sp, r)
+    sp.ip.path.assume(sp.S.OCC(r, w) == sp.S.OCC(a, w))
+
+
+# ------------------------------------------------------------------------------------------- structural degree bound
+# lean: sdeg_sound — ISPOLY e /\ SDEG e = d  ->  den e is (the evaluation of) an MvPolynomial of totalDegree <= d
+@rule("deg", "Constant")
+def _(sp, r):
+    sp.ip.path.assume(z3.And(sp.S.ISPOLY(r), sp.S.SDEG(r) == 0))            # totalDegree_C
+
+
+@rule("deg", "Variable")
+def _(sp, r):
+    sp.ip.path.assume(z3.And(sp.S.ISPOLY(r), sp.S.SDEG(r) == 1))            # totalDegree_X
+
+
+@rule("deg", "Parameter")
+def _(sp, r):
+    sp.ip.path.assume(z3.Not(sp.S.ISPOLY(r)))     # its value may change between solves: never a frozen number (C12/P3)
+
+
+@rule("deg", "BinaryOp")
+def _(sp, r):
     S, K, p = sp.S, sp.K, sp.ip.path
     P, G = S.ISPOLY, S.SDEG
-    val = S.F("value", R)
-    opn = S.F("op", Name)(r)
-    l, rr, a = S.F("left", Ref)(r), S.F("right", Ref)(r), S.F("operand", Ref)(r)
-    p.assume(z3.Implies(P(r), G(r) >= 0))
-    p.assume(z3.Implies(K.is_kind(r, "Constant"), z3.And(P(r), G(r) == 0)))          # totalDegree_C
-    p.assume(z3.Implies(K.is_kind(r, "Variable"), z3.And(P(r), G(r) == 1)))          # totalDegree_X
-    p.assume(z3.Implies(K.is_kind(r, "Parameter"), z3.Not(P(r))))                    # value may change: never frozen (C12/P3)
-    isb = K.is_kind(r, "BinaryOp")
+    l, rr, _ = kids(sp, r)
     both = z3.And(P(l), P(rr))
-    for op in ("+", "-"):                                                            # totalDegree_add / _sub
-        p.assume(z3.Implies(z3.And(isb, opn == lit(op)),
-                            z3.And(P(r) == both, z3.Implies(both, G(r) == sym.zmax(G(l), G(rr))))))
-    p.assume(z3.Implies(z3.And(isb, opn == lit("*")),                                # totalDegree_mul
-                        z3.And(P(r) == both, z3.Implies(both, G(r) == G(l) + G(rr)))))
-    # division by a non-zero constant polynomial (degree-0 *Constant node*)            totalDegree_smul_le
+    val = S.F("value", R)
     rc = K.is_kind(rr, "Constant")
-    p.assume(z3.Implies(z3.And(isb, opn == lit("/")),
-                        z3.And(P(r) == z3.And(P(l), rc, val(rr) != 0), z3.Implies(P(r), G(r) == G(l)))))
-    # natural-number power                                                            totalDegree_pow
-    n = val(rr)
-    natpow = z3.And(rc, z3.IsInt(n), n >= 0)
-    p.assume(z3.Implies(z3.And(isb, opn == lit("**")),
-                        z3.And(P(r) == z3.And(P(l), natpow), z3.Implies(P(r), sym.to_real(G(r)) == n * sym.to_real(G(l))))))
-    isu = K.is_kind(r, "UnaryOp")
-    p.assume(z3.Implies(z3.And(isu, opn == lit("neg")), z3.And(P(r) == P(a), z3.Implies(P(a), G(r) == G(a)))))   # totalDegree_neg
-    # f(constant) is constant on its domain; anything else under an elementary function is not polynomial
-    p.assume(z3.Implies(z3.And(isu, opn != lit("neg")),
-                        z3.And(P(r) == z3.And(P(a), G(a) == 0), z3.Implies(P(r), G(r) == 0))))
-    for hook in VECTOR_DEG_HOOKS:
-        hook(sp, r)
+    p.assume(z3.Implies(P(r), G(r) >= 0))
+    for op in ops_of(sp, r, BINARY_OPS):
+        g = guard_op(sp, r, op)
+        if op in ("+", "-"):        # totalDegree_add / totalDegree_sub
+            p.assume(z3.Implies(g, z3.And(P(r) == both, z3.Implies(both, G(r) == sym.zmax(G(l), G(rr))))))
+        elif op == "*":             # totalDegree_mul
+            p.assume(z3.Implies(g, z3.And(P(r) == both, z3.Implies(both, G(r) == G(l) + G(rr)))))
+        elif op == "/":             # division by a non-zero Constant node: totalDegree_smul_le
+            p.assume(z3.Implies(g, z3.And(P(r) == z3.And(P(l), rc, val(rr) != 0), z3.Implies(P(r), G(r) == G(l)))))
+        else:                       # natural-number power: totalDegree_pow
+            n = val(rr)
+            natpow = z3.And(rc, z3.IsInt(n), n >= 0)
+            p.assume(z3.Implies(g, z3.And(P(r) == z3.And(P(l), natpow),
+                                          z3.Implies(P(r), sym.to_real(G(r)) == n * sym.to_real(G(l))))))
+    p.assume(z3.Implies(P(l), G(l) >= 0))
+    p.assume(z3.Implies(P(rr), G(rr) >= 0))
+
+
+@rule("deg", "UnaryOp")
+def _(sp, r):
+    S, p = sp.S, sp.ip.path
+    P, G = S.ISPOLY, S.SDEG
+    _, _, a = kids(sp, r)
+    p.assume(z3.Implies(P(a), G(a) >= 0))
+    for op in ops_of(sp, r, UNARY_OPS):
+        g = guard_op(sp, r, op)
+        if op == "neg":             # totalDegree_neg
+            p.assume(z3.Implies(g, z3.And(P(r) == P(a), z3.Implies(P(a), G(r) == G(a)))))
+        else:                       # f(constant) is constant on its domain; anything else is not polynomial
+            p.assume(z3.Implies(g, z3.And(P(r) == z3.And(P(a), G(a) == 0), z3.Implies(P(r), G(r) == 0))))
+
+
+# ------------------------------------------------------------------------------------------- well-formed scalar trees
+# WF(e): e is a scalar-valued expression as the public API builds them: not one of the two element-wise vector kinds,
+# operators from the operator tables, children well formed.  It is a *precondition* vocabulary (what "scalar
+# expression built through the public API" means), stated as an iff so that allocated results can be shown WF.
+@rule("wf", "Constant", "Variable", "Parameter")
+def _(sp, r):
+    sp.ip.path.assume(WF(r))
+
+
+@rule("wf", "ElementwisePower", "ElementwiseUnary")
+def _(sp, r):
+    sp.ip.path.assume(z3.Not(WF(r)))
+
+
+@rule("wf", "BinaryOp")
+def _(sp, r):
+    l, rr, _ = kids(sp, r)
+    opn = sp.S.F("op", Name)(r)
+    okop = z3.BoolVal(True) if sp.S.known_op(sp.ip, r) in BINARY_OPS else z3.Or(*[opn == lit(o) for o in BINARY_OPS])
+    sp.ip.path.assume(WF(r) == z3.And(WF(l), WF(rr), okop))
+
+
+@rule("wf", "UnaryOp")
+def _(sp, r):
+    _, _, a = kids(sp, r)
+    opn = sp.S.F("op", Name)(r)
+    okop = z3.BoolVal(True) if sp.S.known_op(sp.ip, r) in UNARY_OPS else z3.Or(*[opn == lit(o) for o in UNARY_OPS])
+    sp.ip.path.assume(WF(r) == z3.And(WF(a), okop))
 
 
 def install(registry):
-    """Unfolding is demand-driven from the spec functions; the per-ref `touch` hook only states object invariants."""
     @registry.add_unfolder
     def _touch(schema, ip, o):
         return None
+    registry.uf_hook = uf_facts
